@@ -109,6 +109,9 @@ pub enum PadForm {
     /// validly signed by the owner, then a holder replaced the encrypted content (by other data encrypted to
     /// the owner's public key) while keeping address, counter and signature
     SubstitutedContent,
+    /// validly signed by the owner at `counter`, then the counter field is replaced by its byte-swapped value (the
+    /// same eight bytes read in the other byte order: 1 becomes 2^56); content and signature untouched
+    ByteSwappedCounter,
 }
 
 /// A scratchpad of `owner` whose counter is `counter` (>= 1) carrying `data`.
@@ -144,6 +147,15 @@ pub fn scratchpad(
             let forged = owner.public_key().encrypt([b"substituted by the holder: ".as_slice(), data].concat()).to_bytes();
             let mut v = serde_json::to_value(&p).expect("pad to json");
             v["encrypted_data"] = serde_json::to_value(Bytes::from(forged)).expect("bytes to json");
+            p = serde_json::from_value(v).expect("pad from json");
+        }
+        PadForm::ByteSwappedCounter => {
+            for _ in 1..counter {
+                p.increment();
+            }
+            p.update_and_sign(Bytes::copy_from_slice(data), owner);
+            let mut v = serde_json::to_value(&p).expect("pad to json");
+            v["counter"] = serde_json::json!(p.count().swap_bytes());
             p = serde_json::from_value(v).expect("pad from json");
         }
         PadForm::InflatedCounter => {
